@@ -6,6 +6,7 @@ Every stub states its contract; the contract is part of the claim of the check t
 from __future__ import annotations
 
 import itertools
+import math
 
 import numpy as np
 import scipy.stats as _sts
@@ -183,6 +184,18 @@ def fit_hook(fam, data, args, kw):
             if i != k:  # shapes and scale are positive
                 e.assume(t > 0)
             out.append(SR(t))
+    if fam == "vonmises":
+        # scipy.stats.vonmises.fit returns the location wrapped into [-pi, pi] - also a fixed one
+        # (scipy/stats/_continuous_distns.py: loc = np.mod(loc + np.pi, 2 * np.pi) - np.pi)
+        loc = out[k]
+        if isinstance(loc, SR):
+            if fixed[k] is None:
+                engine().assume(z3.And(loc.t >= -sym._q(math.pi), loc.t <= sym._q(math.pi)))
+            else:
+                turns = z3.ToReal(z3.ToInt((loc.t + sym._q(math.pi)) / (2 * sym._q(math.pi))))
+                out[k] = SR(loc.t - 2 * sym._q(math.pi) * turns)
+        else:
+            out[k] = float(np.mod(float(loc) + np.pi, 2 * np.pi) - np.pi)
     FIT_LOG.append({"family": fam, "data": data, "shape_starts": tuple(args), "loc_start": start["loc"],
                     "scale_start": start["scale"], "fixed": tuple(fixed), "result": tuple(out)})
     return tuple(out)
